@@ -19,7 +19,7 @@ EXPLANATION = (
     " R4 further requires, for the cursor idiom, that every read inside the loop targets a buffer slice derived from the cursor."
     " (R9) while a workspace AsyncRead wrapper digests the whole `buf.filled()` after the inner poll (the async CRAM CrcReader), no function that is handed the wrapper polls an accumulating read future (read_exact / read_buf / read_to_end) on it: those keep one ReadBuf across polls, so a short read would digest earlier bytes twice."
     " (R10) byte accounting across windows: a scanner that returns a byte count adds every computed amount it consumes to that count in the same iteration (the FASTQ / FASTA indexers turn these counts into file offsets)."
-    " (R11) spurious Interrupted: a sync scanner that calls fill_buf in its own code compares the error kind with Interrupted and retries (genuine defect F47, repaired at fifteen sites; Read / BufRead impls hand the error to their caller, who owns the retry).")
+    " (R11) spurious Interrupted: a sync scanner that calls fill_buf in its own code compares the error kind with Interrupted and retries (genuine defect F47, repaired at eighteen sites incl. the three discard_to_end loops of the header sub-readers; Read / BufRead impls hand the error to their caller, who owns the retry).")
 ASSUMPTIONS = [
     "std/tokio read_exact, read_until, read_line, BufReader reassemble short reads and retry Interrupted (library contract)",
     "the classification is structural: it proves the necessary part (no site assumes a window or a full read), not content equality",
@@ -73,10 +73,6 @@ def run(ctx):
             continue        # format detection peeks once (known finding F6 covers its window assumption)
         n11 += 1
         ctx.saw_fn(f11)
-        if f11.root.endswith("::discard_to_end"):
-            ctx.ok("C12.R11", s11["fn"], "tabled as undecided: same shape as the scanners below, but no failing schedule was found for the header "
-                                         "sub-readers (their own BufReader sits between the loop and the source); not claimed safe", f11.loc(s11["block"]))
-            continue
         if a5._retries_interrupted(fb, f11, s11["block"]):
             ctx.ok("C12.R11", s11["fn"], "compares the error kind with Interrupted and reaches the call again", f11.loc(s11["block"]))
         else:
